@@ -14,8 +14,9 @@ VERIF = runner.VERIF
 
 # runs per tier (count-bounded so a batch is exactly repeatable; the wall cap
 # can only shorten it and the evidence then says so)
-QUICK_RUNS = {'default': 2400, 'C01': 900, 'C04': 900, 'C14': 700,
-              'C15': 500, 'C02': 1600, 'C03': 1600}
+QUICK_RUNS = {'default': 5000, 'C01': 2000, 'C04': 2000, 'C14': 1500,
+              'C15': 700, 'C02': 4000, 'C03': 4000, 'C12': 3000,
+              'C08': 4000}
 THOROUGH_FACTOR = 12
 QUICK_BUDGET = 150.0
 THOROUGH_BUDGET = 900.0
@@ -41,6 +42,7 @@ def check(prop, tier, args):
     if profile.get('engine') == 'c20':
         from . import c20
         return c20.check(tier, args)
+    args.runs_given = args.runs is not None
     nruns = args.runs or QUICK_RUNS.get(prop, QUICK_RUNS['default'])
     budget = args.budget or QUICK_BUDGET
     if tier == 'thorough':
@@ -82,6 +84,21 @@ def check(prop, tier, args):
         tot['digests'].update(a['digests'])
         tot['truncated'] = tot['truncated'] or a['truncated']
         harness += a['harness_errors']
+    sweep = None
+    from .sweeps import SWEEPS, SPACE
+    if prop in SWEEPS and not getattr(args, 'no_sweep', False) and \
+            (not args.runs_given or getattr(args, 'sweep', False)):
+        sweep = run_sweep(prop, tier, owners, nw, t0 + budget * 2, ctx)
+        tot['violations'] += sweep['violations']
+        tot['signals'] += sweep['signals']
+        tot['cases'] |= set(sweep['oracle_cases'])
+        tot['probe_count'].update(sweep['probe_count'])
+        tot['known_seen'].update(sweep['known_seen'])
+        harness += sweep['harness']
+        tot['sweep'] = {'space': SPACE[prop], 'cases': sweep['cases'],
+                        'events': sweep['events'],
+                        'exhaustive': not sweep['truncated'],
+                        'sample': sweep['sample']}
     wall = time.time() - t0
     if args.digests:
         with open(args.digests, 'w') as f:
@@ -111,13 +128,45 @@ def check(prop, tier, args):
                       % (v['oracle'], v['seed'], v.get('events', -1),
                          v['detail'][:500].replace('\n', ' | ')))
         return 1
-    print('OK property=%s tier=%s runs=%d events=%d cases=%d wall=%.1fs%s'
+    print('OK property=%s tier=%s runs=%d events=%d cases=%d wall=%.1fs%s%s'
           % (prop, tier, tot['runs'], tot['events'], len(tot['cases']), wall,
-             ' (wall cap hit: batch shortened)' if tot['truncated'] else ''))
+             ' (wall cap hit: batch shortened)' if tot['truncated'] else '',
+             ' sweep=%d cases%s' % (tot['sweep']['cases'], '' if
+                                    tot['sweep']['exhaustive'] else
+                                    ' (NOT exhaustive: wall cap)')
+             if tot.get('sweep') else ''))
     if tot['signals']:
         print('note: %d other-property signals (see evidence)'
               % len(tot['signals']))
     return 0
+
+
+def run_sweep(prop, tier, owners, nw, deadline, ctx):
+    nchunks = nw * 4
+    jobs = [(prop, tier, c, nchunks, owners, deadline) for c in range(nchunks)]
+    out = {'cases': 0, 'events': 0, 'violations': [], 'signals': [],
+           'truncated': False, 'oracle_cases': set(), 'harness': [],
+           'probe_count': Counter(), 'known_seen': Counter(), 'sample': None}
+    with ProcessPoolExecutor(max_workers=nw, mp_context=ctx) as ex:
+        futs = [ex.submit(runner.sweep_worker, j) for j in jobs]
+        for f in as_completed(futs):
+            try:
+                a = f.result()
+            except Exception as e:  # noqa
+                import traceback
+                out['harness'].append(''.join(
+                    traceback.format_exception(e))[-2500:])
+                continue
+            out['cases'] += a['cases']
+            out['events'] += a['events']
+            out['violations'] += a['violations']
+            out['signals'] += a['signals']
+            out['truncated'] = out['truncated'] or a['truncated']
+            out['oracle_cases'] |= set(a['oracle_cases'])
+            out['probe_count'].update(a['probe_count'])
+            out['known_seen'].update(a['known_seen'])
+            out['sample'] = out['sample'] or a['sample']
+    return out
 
 
 def write_evidence(prop, tier, tot, viols, wall, planned, harness):
@@ -196,6 +245,7 @@ def write_evidence(prop, tier, tot, viols, wall, planned, harness):
                               'user callbacks', 'text streams',
                               'warnings/stdout capture',
                               'CLI entry (in-process callbacks)']},
+            'small_scope_sweep': tot.get('sweep'),
             'other_property_signals': tot['signals'][:10],
             'known_findings_seen': dict(tot['known_seen']),
             'harness_errors': len(harness),
